@@ -204,6 +204,35 @@ def run(ctx):
                  "characters_description", "characters_example"):
         crosscheck(ctx, "C10.R6", BP + "." + name, RS, name, BP, name)
 
+    # constructors and the small methods every element passes through: the
+    # parser starts with nothing remembered, one object is popped per closed
+    # element, descriptions of base schemas are offered to the extending one
+    SPq, CPq = SP + ".SchemaParser", SP + ".ComponentParser"
+    for live, ref, cq in (
+            (BP + ".__init__", "baseparser_init", BP),
+            (SPq + ".__init__", "schemaparser_init", SPq),
+            (CPq + ".__init__", "componentparser_init", CPq),
+            (BP + ".setDocumentLocator", "setDocumentLocator", BP),
+            (BP + ".endDocument", "endDocument", BP),
+            (BP + ".get_position", "get_position", BP),
+            (BP + ".characters_metadefault", "characters_metadefault", BP),
+            (BP + ".end_import", "end_import", BP),
+            (BP + ".end_section", "end_pop", BP),
+            (BP + ".end_multisection", "end_pop", BP),
+            (BP + ".end_abstracttype", "end_pop", BP),
+            (SPq + ".end_schema", "end_schema", SPq),
+            (CPq + ".characters_description",
+             "component_characters_description", CPq),
+            (CPq + ".start_key", "component_start_key", CPq),
+            (CPq + ".start_multikey", "component_start_multikey", CPq),
+            (CPq + ".start_section", "component_start_section", CPq),
+            (CPq + ".start_multisection", "component_start_multisection",
+             CPq),
+            (CPq + ".start_component", "start_component", CPq),
+            (CPq + ".end_component", "end_component", CPq),
+            (CPq + "._check_not_toplevel", "check_not_toplevel", CPq)):
+        crosscheck(ctx, "C10.R6", live, RS, ref, cq, ref)
+
     # ------------------------------------------------------------------ R9
     # "well-formed names": the converters the schema parser applies to names,
     # attributes, prefixes and datatype names accept exactly their documented
